@@ -40,6 +40,10 @@ TP_SEEDS = [
     ("1970-01-01T00:00:00Z", "std", 1970, True),
     ("2038-01-19T03:14:07Z", "std", 2038, True),
     ("2000-01-31T00:00:00Z", "unknown_tz", 2000, True),
+    # parser options a generic driver might leave at their defaults
+    ("20000131T120000Z", "basic_only", 2000, True),
+    ("2000-01-31T12:00:00+01:00", "with_format", 2000, True),
+    ("+0012345-01-31T12:00:00Z", "digits3", 12345, False),
 ]
 TRUNC_SEEDS = ["T06", "T-30", "T--15", "---15", "-W-3", "-045", "--03",
                "T18:45", "-W10-2", "--0315", "T06Z", "T12:30+05:30", "-00",
@@ -351,7 +355,8 @@ class Gen(object):
             return self.op("tp.get_time_zone_offset", [a, b or a],
                            result="dur", client=client, mag=5)
         if r < 0.915:
-            return self.op("tp.get", [a], ["year"], client=client)
+            return self.op(rng.choice(["tp.get", "tp.str_kwargs"]), [a],
+                           ["year"], client=client)
         if r < 0.96 and not ma.get("trunc"):
             # values handed to the operator / dumper layer
             which = rng.choice(["shift", "diff", "format", "reparse"])
@@ -659,6 +664,7 @@ def gen_directed(rng, index):
         op("tp.get_time_zone_offset", [x, p2])
         op("tp.get_time_zone_offset", [p2, x])
         op("tp.get", [x], ["year"])
+        op("tp.str_kwargs", [x])
         if meta.get("safe"):
             for kw in ADD_TRUNC_KW:
                 op("tp.add_truncated", [x], [kw])
@@ -686,6 +692,7 @@ def gen_directed(rng, index):
             op("tp.to_time_zone", [x, z])
         for fmt in STRF[:4]:
             op("tp.strftime", [x], [fmt])
+        op("tp.str_kwargs", [x])
         op("tp.add_tp", [x, p1])
         op("tp.add_tp", [p1, x])
         op("tp.hash_str", [x])
@@ -945,6 +952,11 @@ class Sim(object):
         from metomi.isodatetime import data
         kind, _, meth = name.partition(".")
         a = ops[0]
+        if meth == "str_kwargs":
+            # the optional keywords of TimePoint.__str__
+            return [a.__str__(override_custom_dump_format=True),
+                    a.__str__(strftime_format="%Y-%m-%dT%H:%M:%S"),
+                    a.__str__(override_custom_dump_format=False)]
         if meth in ("hash_str",):
             # the hash value itself stays out of the event log: for values
             # carrying strings it depends on PYTHONHASHSEED
@@ -1133,7 +1145,11 @@ class Sim(object):
             "trunc_unknown": parsers.TimePointParser(
                 allow_truncated=True, default_to_unknown_time_zone=True),
             "unknown_tz": parsers.TimePointParser(
-                default_to_unknown_time_zone=True)}
+                default_to_unknown_time_zone=True),
+            "basic_only": parsers.TimePointParser(allow_only_basic=True),
+            "with_format": parsers.TimePointParser(
+                dump_format="CCYYDDDThhmm+hhmm"),
+            "digits3": parsers.TimePointParser(num_expanded_year_digits=3)}
         self.dparser = parsers.DurationParser()
         self.rparser = parsers.TimeRecurrenceParser()
         from metomi.isodatetime.datetimeoper import DateTimeOperator
